@@ -28,7 +28,9 @@ def gen_value(rng, t):
         return rng.choice(C.INTS)
     if t == 'real':
         v = rng.choice([x for x in C.REALS if math.isfinite(x)] + [0.1 + 0.2, 1 / 3, 1e-17, 123456789.12345678,
-                                                                  5e-324, 1.7976931348623157e308])
+                                                                  5e-324, 1.7976931348623157e308,
+                                                                  # the bounds discovery gives a column of +-inf
+                                                                  float('inf'), float('-inf')])
         return v
     if t == 'bool':
         return rng.random() < 0.5
